@@ -302,7 +302,7 @@ DEFAULTS = dict(
     mode="ack", closure=False, cks="crc32", crc_flag=False, idw_s=2, idw_d=2, seqw=2,
     seg=4, mpl=512, size=8, nak="imm", shape="new", md_only=False,
     ack_limit=2, nak_limit=2, check_limit=2, disposition=False,
-    ind=(True, True, True, True), msgs="none", faults_s=None, faults_d=None, zero=False,
+    ind=(True, True, True, True), msgs="none", fsreq=False, faults_s=None, faults_d=None, zero=False,
     req_mode="same", req_closure="same",
 )
 
@@ -407,14 +407,22 @@ def msgs_to_user(c):
     return out
 
 
+def fs_requests(c):
+    if not c.get("fsreq"):
+        return None
+    from spacepackets.cfdp import FileStoreRequestTlv, FilestoreActionCode
+
+    return [FileStoreRequestTlv(action_code=FilestoreActionCode.CREATE_FILE_SNM, first_file_name="out/extra.bin")]
+
+
 def put_request(c) -> PutRequest:
     rm = {"same": None, "none": None, "ack": TransmissionMode.ACKNOWLEDGED, "unack": TransmissionMode.UNACKNOWLEDGED}[c["req_mode"]]
     rc = {"same": None, "none": None, True: True, False: False}[c["req_closure"]]
     if c["md_only"]:
         return PutRequest(destination_id=dst_id(c), source_file=None, dest_file=None, trans_mode=rm,
-                          closure_requested=rc, msgs_to_user=msgs_to_user(c))
+                          closure_requested=rc, msgs_to_user=msgs_to_user(c), fs_requests=fs_requests(c))
     return PutRequest(destination_id=dst_id(c), source_file=Path(SRC_PATH), dest_file=Path(dest_path_requested(c)),
-                      trans_mode=rm, closure_requested=rc, msgs_to_user=msgs_to_user(c))
+                      trans_mode=rm, closure_requested=rc, msgs_to_user=msgs_to_user(c), fs_requests=fs_requests(c))
 
 
 def exc_site(ex: BaseException) -> str:
